@@ -83,6 +83,22 @@ func sliceLitPlusFV(x an.FV, stop func(*ssa.Function) bool) (elems []an.FV, tail
 		return nil, an.FV{}, false
 	}
 	base := an.FV{V: call.Call.Args[0], F: x.F}.Resolve(stop)
+	if inner, isInner := base.V.(*ssa.Call); isInner && an.IsBuiltinCall(inner, "append") && len(inner.Call.Args) == 2 {
+		// `l := make([]string, 0, n); l = append(l, a, b, c); l = append(l, tail...)`: the fixed values appended to an
+		// empty list
+		b0 := an.FV{V: inner.Call.Args[0], F: base.F}.Resolve(stop)
+		empty := false
+		switch y := an.Strip(b0.V).(type) {
+		case *ssa.MakeSlice:
+			k, isK := y.Len.(*ssa.Const)
+			empty = isK && k.Value != nil && k.Int64() == 0
+		case *ssa.Const:
+			empty = y.IsNil()
+		}
+		if empty {
+			base = an.FV{V: inner.Call.Args[1], F: base.F}.Resolve(stop)
+		}
+	}
 	sl, isSl := base.V.(*ssa.Slice)
 	if !isSl {
 		return nil, an.FV{}, false
@@ -460,12 +476,25 @@ func c16(c *core.Ctx, r *core.Report) {
 							role = testL // by convention of the recorders' signatures: the first string is the scenario name
 						} else if x.Parent() == fn && len(strParams) > 1 && x == strParams[1] {
 							role = stageL
+						} else if x.Parent() == fn && an.IsNamed(x.Type(), metricsPkg, "ResultType") {
+							role = resultL // string(result): the same text as result.String()
 						}
 					case *ssa.Call:
 						if isResultString(an.Callee(x)) {
 							if p, ok := (an.FV{V: x.Call.Args[0], F: el.F}).Resolve(isResultString).V.(*ssa.Parameter); ok && p.Parent() == fn {
 								role = resultL
 							}
+						}
+					case *ssa.ChangeType, *ssa.Convert:
+						// string(result): the same text as result.String()
+						var inner ssa.Value
+						if ct, ok := x.(*ssa.ChangeType); ok {
+							inner = ct.X
+						} else {
+							inner = x.(*ssa.Convert).X
+						}
+						if p, ok := (an.FV{V: inner, F: el.F}).Resolve(isResultString).V.(*ssa.Parameter); ok && p.Parent() == fn && an.IsNamed(p.Type(), metricsPkg, "ResultType") {
+							role = resultL
 						}
 					}
 					if role != ns[i] {
